@@ -757,8 +757,9 @@ fn generate(seed: u64, idx: u64, rng: &mut Rng) -> ConcCase {
         m.after(&op, &out, &pre);
         setup.push(op);
     }
-    let family = rng.weighted(&[70, 15, 15]);
+    let family = rng.weighted(&[62, 14, 14, 10]);
     let mut linz = linz;
+    let mut setup = setup;
     let nthreads = if linz { rng.range(2, 3) } else { rng.range(2, 4) };
     let mut threads = vec![];
     match family {
@@ -791,6 +792,53 @@ fn generate(seed: u64, idx: u64, rng: &mut Rng) -> ConcCase {
                         }
                         ops.push(Op::AppendAll { p: f, d });
                     }
+                }
+                threads.push(ops);
+            }
+        },
+        3 => {
+            // cwd race: relative spellings on some threads while another moves the working directory.
+            // Each call must resolve all of its paths against one cwd (the old or the new one).
+            linz = true;
+            setup = vec![
+                Op::MkdirP { p: "/d0".into() },
+                Op::MkdirP { p: "/d1".into() },
+                Op::WriteAll { p: "/d0/x".into(), d: Bytes(b"A0".to_vec()) },
+                Op::WriteAll { p: "/d1/x".into(), d: Bytes(b"B1".to_vec()) },
+            ];
+            if rng.chance(1, 2) {
+                setup.push(Op::WriteAll { p: "/x".into(), d: Bytes(b"R".to_vec()) });
+            }
+            if rng.chance(2, 3) {
+                setup.push(Op::SetCwd { p: "/d0".into() });
+            }
+            let cwd_targets = ["/d1", "/d0", "/", "../d1", "d1", ".."];
+            let movers = rng.range(1, 2);
+            for _ in 0..movers {
+                let mut ops = vec![];
+                for _ in 0..rng.range(1, 2) {
+                    ops.push(Op::SetCwd { p: rng.pick(&cwd_targets).to_string() });
+                }
+                threads.push(ops);
+            }
+            for _ in 0..(3 - movers).max(1) {
+                let mut ops = vec![];
+                for _ in 0..rng.range(1, 2) {
+                    gen.step += 1;
+                    let d = Bytes(format!("<c{}.{}>", idx, gen.step).into_bytes());
+                    let a = rng.pick(&["x", "./x", "../d1/x", "../d0/x", "x"]).to_string();
+                    let b = rng.pick(&["y", "./y", "../y", "sub/y", "y"]).to_string();
+                    ops.push(match rng.below(12) {
+                        0 | 1 | 2 => Op::MoveP { s: a, d: b },
+                        3 | 4 => Op::Copy { s: a, d: b },
+                        5 => Op::Symlink { l: b, t: a },
+                        6 => Op::WriteAll { p: a, d },
+                        7 => Op::AppendAll { p: a, d },
+                        8 => Op::MkdirP { p: b },
+                        9 => Op::Remove { p: a },
+                        10 => Op::ReadAll { p: a },
+                        _ => Op::Abs { p: b },
+                    });
                 }
                 threads.push(ops);
             }
